@@ -74,9 +74,92 @@ class BlockQuadratic(CW.Member):
         return out
 
 
+# rational points of the unit circle (cos, sin): scaled rotations with exact entries
+PYTH = [(3 / 5, 4 / 5), (4 / 5, 3 / 5), (5 / 13, 12 / 13), (12 / 13, 5 / 13), (8 / 17, 15 / 17), (0.0, 1.0)]
+
+
+def rotation_matrix(world, d, a, b, tail):
+    """a I + b K on the first 2 * (d // 2) coordinates (K = diag of quarter turns J = [[0,-1],[1,0]]: K^T = -K,
+    K^2 = -I), `tail` on a left-over coordinate: <A u, u> = a |u|^2 and |A u|^2 = (a^2 + b^2) |u|^2 on the even part.
+    NOT a gradient field when b != 0.  Half of the time conjugated by an orthogonal matrix (same properties),
+    otherwise kept with its exact entries."""
+    m = 2 * (d // 2)
+    A = np.zeros((d, d))
+    for i in range(0, m, 2):
+        sgn = 1.0 if world.rng.rand() < 0.5 else -1.0
+        A[i, i] = A[i + 1, i + 1] = a
+        A[i, i + 1], A[i + 1, i] = -sgn * b, sgn * b
+    if d > m:
+        A[d - 1, d - 1] = tail
+    if world.rng.rand() < 0.5:
+        Q = world.orthogonal(d)
+        A = Q @ A @ Q.T
+    return A
+
+
+def draw_rotation_member(world, name, params):
+    """non-gradient members ON THE BOUNDARY of the operator classes (scaled rotations a I + b J), or None.
+    A tightened inequality that is still valid for gradient fields (symmetric linear maps) is only separated from
+    the right one by such members: a is the exact strong-monotonicity modulus, a / (a^2 + b^2) the exact
+    cocoercivity modulus, sqrt(a^2 + b^2) the exact Lipschitz constant."""
+    d, rng = world.dim, world.rng
+    if d < 2:
+        return None
+    c, s = PYTH[rng.randint(len(PYTH))]
+    ctr = world.center()
+    if name == "StronglyMonotoneOperator":
+        mu = params["mu"]
+        return CW.LinOp(world, rotation_matrix(world, d, mu, float(rng.choice([0.5, 1.0, 3.0])), mu), ctr)
+    if name == "MonotoneOperator":
+        return CW.LinOp(world, rotation_matrix(world, d, 0.0, float(rng.choice([0.5, 1.0, 3.0])), 0.0), ctr)
+    if name == "CocoerciveOperator":
+        beta = params["beta"]
+        if c == 0.0:
+            c, s = 3 / 5, 4 / 5
+        return CW.LinOp(world, rotation_matrix(world, d, c * c / beta, c * s / beta, 1.0 / beta), ctr)
+    if name == "NegativelyComonotoneOperator":
+        rho = params["rho"]
+        if c == 0.0:
+            return CW.LinOp(world, rotation_matrix(world, d, 0.0, 1.0 / rho, -1.0 / rho), ctr)
+        return CW.LinOp(world, rotation_matrix(world, d, -c * c / rho, c * s / rho, -1.0 / rho), ctr)
+    if name == "CocoerciveStronglyMonotoneOperator":
+        mu, beta = params["mu"], params["beta"]
+        if mu * beta > 1:
+            return None
+        r = rng.rand()
+        if r < 0.6:
+            # both moduli exact: a = mu, a / (a^2 + b^2) = beta
+            a, b = mu, math.sqrt(max(mu / beta - mu * mu, 0.0))
+        elif r < 0.8:
+            # strong monotonicity exact, cocoercivity with slack
+            a, b = mu, 0.5 * math.sqrt(max(mu / beta - mu * mu, 0.0))
+        else:
+            # cocoercivity exact, strong monotonicity with slack (if the rational angle allows it)
+            a, b = c * c / beta, c * s / beta
+            if a < mu:
+                a, b = mu, math.sqrt(max(mu / beta - mu * mu, 0.0))
+        return CW.LinOp(world, rotation_matrix(world, d, a, b, float(rng.choice([mu, 1.0 / beta]))), ctr)
+    if name == "LipschitzStronglyMonotoneOperator":
+        mu, L = params["mu"], params["L"]
+        if L < mu:
+            return None
+        return CW.LinOp(world, rotation_matrix(world, d, mu, math.sqrt(L * L - mu * mu), float(rng.choice([mu, L]))), ctr)
+    if name in ("LipschitzOperator", "NonexpansiveOperator"):
+        L = 1.0 if name == "NonexpansiveOperator" else params["L"]
+        return CW.AffOp(world, rotation_matrix(world, d, L * c, L * s, float(rng.choice([L, -L]))), ctr)
+    if name == "SkewSymmetricLinearOperator" and d % 2 == 0:
+        return CW.LinMat(world, rotation_matrix(world, d, 0.0, params["L"], 0.0))
+    return None
+
+
 def draw_member(world, name, params):
     d = world.dim
     rng = world.rng
+    if name in ROTATION_CLASSES and rng.rand() < 0.5:
+        m = draw_rotation_member(world, name, params)
+        if m is not None:
+            m.tag = "scaled-rotation (non-gradient, on the boundary of the class)"
+            return m
     if name == "ConvexSupportFunction":
         M = params.get("M", float("inf"))
         rad = M if not math.isinf(M) else float(rng.choice([0.5, 1.0, 2.0]))
@@ -123,6 +206,10 @@ def point_value(pt, P):
     return v
 
 
+ROTATION_CLASSES = ("StronglyMonotoneOperator", "MonotoneOperator", "CocoerciveOperator",
+                    "NegativelyComonotoneOperator", "CocoerciveStronglyMonotoneOperator",
+                    "LipschitzStronglyMonotoneOperator", "LipschitzOperator", "NonexpansiveOperator",
+                    "SkewSymmetricLinearOperator")
 NO_STATIONARY = ("SmoothStronglyConvexQuadraticFunction", "LinearOperator", "SymmetricLinearOperator",
                  "SkewSymmetricLinearOperator", "ConvexSupportFunction", "NegativelyComonotoneOperator")
 
@@ -240,7 +327,7 @@ def check_class(name, rng, seed, n_samples=None, stats=None):
     if stats is not None:
         stats["constraints"] = stats.get("constraints", 0) + len(func.list_of_class_constraints)
         stats["lmis"] = stats.get("lmis", 0) + len(func.list_of_class_psd)
-        stats["last"] = dict(params=params, dim=dim, samples=order, member=type(member).__name__,
+        stats["last"] = dict(params=params, dim=dim, samples=order, member=getattr(member, 'tag', type(member).__name__),
                              n_constraints=len(func.list_of_class_constraints), n_lmis=len(func.list_of_class_psd))
         for o in order:
             stats.setdefault("kinds", {})
@@ -250,13 +337,13 @@ def check_class(name, rng, seed, n_samples=None, stats=None):
         bad = abs(val) > tol if c.equality_or_inequality == "equality" else val > tol
         if bad:
             return dict(kind="member-violates-class-constraint", cls=name, params=params, world_seed=seed, dim=dim,
-                        member=type(member).__name__, constraint=c.get_name(), value=val, tolerance=tol,
+                        member=getattr(member, 'tag', type(member).__name__), constraint=c.get_name(), value=val, tolerance=tol,
                         sense=c.equality_or_inequality, samples=order)
     for m in func.list_of_class_psd:
         M = np.array([[value_of(e, P, F) for e in row] for row in m.matrix_of_expressions], float)
         if M.size and (np.max(np.abs(M - M.T)) > tol or np.min(np.linalg.eigvalsh((M + M.T) / 2)) < -tol):
             return dict(kind="member-violates-class-lmi", cls=name, params=params, world_seed=seed, dim=dim,
-                        member=type(member).__name__, asymmetry=float(np.max(np.abs(M - M.T))),
+                        member=getattr(member, 'tag', type(member).__name__), asymmetry=float(np.max(np.abs(M - M.T))),
                         min_eig=float(np.min(np.linalg.eigvalsh((M + M.T) / 2))), tolerance=tol, samples=order)
     return None
 
